@@ -10,15 +10,15 @@ import (
 
 func init() {
 	register(&Property{
-		ID:        "C07",
-		Title:     "Transactions are all-or-nothing and every failure reaches the caller",
-		Technique: "static analysis: SSA branch-fact dataflow (no nil return under a known error), discarded-error-result rule over resolved callees, error-holder consultation on all paths, must-pass ordering in the Update/Batch closures, call-graph who-may-call rule for post-commit work",
-		LevelText: "Structural necessary conditions decided for every function and path of boltz/ast/objectz/zitiql: no error is replaced by success, no error result is dropped, the ErrorHolder chain is consulted before success, pre-commit work precedes success inside the bolt closure, post-commit work is reachable only through tx.OnCommit. The rollback itself is bbolt's and is trusted.",
-		LevelNote: "Trusted: Go type checker, x/tools SSA (v0.29.0), bbolt's rollback-on-error, tabled exceptions in checker/rules_errors.go. Not decided: byte-level state after rollback, failure injection at arbitrary storage calls.",
-		DesignRef: "DESIGN.md C07",
+		ID:          "C07",
+		Title:       "Transactions are all-or-nothing and every failure reaches the caller",
+		Technique:   "static analysis: SSA branch-fact dataflow (no nil return under a known error), discarded-error-result rule over resolved callees, error-holder consultation on all paths, must-pass ordering in the Update/Batch closures, call-graph who-may-call rule for post-commit work",
+		LevelText:   "Structural necessary conditions decided for every function and path of boltz/ast/objectz/zitiql: no error is replaced by success, no error result is dropped, the ErrorHolder chain is consulted before success, pre-commit work precedes success inside the bolt closure, post-commit work is reachable only through tx.OnCommit. The rollback itself is bbolt's and is trusted.",
+		LevelNote:   "Trusted: Go type checker, x/tools SSA (v0.29.0), bbolt's rollback-on-error, tabled exceptions in checker/rules_errors.go. Not decided: byte-level state after rollback, failure injection at arbitrary storage calls.",
+		DesignRef:   "DESIGN.md C07",
 		Explanation: "All non-generated functions of ast, boltz, objectz, zitiql are enumerated from SSA. SWALLOW: for every function with an error result, a forward must-dataflow of branch facts decides at each return whether some error value is known non-nil while nil is returned. DROP: every call whose signature has an error result must bind and use it. HOLDER: for every error-returning function, every TypedBucket/ErrorHolder that was mutated or has escaped must be consulted (HasError/GetError/.Err) on every path to a success return. TXFN: in the closures handed to bbolt DB.Update/Batch, setTx < fn(ctx) < runPreCommitActions on every path to a nil return. POSTCOMMIT: greatest fixpoint of 'reachable only via a function value registered with bbolt Tx.OnCommit' must contain every function that invokes ProcessPostCommit, runs commit actions or tx-complete listeners.",
-		Trusted:   []string{"go/types", "golang.org/x/tools/go/ssa v0.29.0", "bbolt transaction rollback and OnCommit semantics", "exception tables in checker/rules_errors.go"},
-		Rules:     rulesC07,
+		Trusted:     []string{"go/types", "golang.org/x/tools/go/ssa v0.29.0", "bbolt transaction rollback and OnCommit semantics", "exception tables in checker/rules_errors.go"},
+		Rules:       rulesC07,
 		Controls: []controlExpect{
 			{"C07.SWALLOW", "zzControlBad_C07_SWALLOW", true},
 			{"C07.SWALLOW", "zzControlGood_C07_SWALLOW", false},
@@ -43,6 +43,8 @@ func rulesC07(c *Ctx) {
 	c.Floor("C07.OVERWRITE", 8)
 	ruleHolderReplaced(c, "C07.HOLDERPTR")
 	ruleFirstErrorWins(c, "C07.FIRSTERR")
+	ruleProceedTable(c, "C07.PROCEED")
+	ruleHandledContract(c, "C07.HANDLED")
 	c.Floor("C07.FIRSTERR", 8)
 	ruleTxFn(c, "C07.TXFN")
 	c.Floor("C07.TXFN", 8)
@@ -969,5 +971,62 @@ func ruleHolderReplaced(c *Ctx, rule string) {
 	}
 	if n == 0 {
 		c.OK(rule, "boltz", "-", "no bucket has its error holder re-pointed")
+	}
+}
+
+// ruleHandledContract: BaseStore.Update reads the error of a child-store strategy only when the
+// strategy says it handled the update; so a strategy must never return (false, non-nil error).
+func ruleHandledContract(c *Ctx, rule string) {
+	p := c.P
+	cg := p.CallGraph()
+	hm := p.Method("boltz", "ChildStoreStrategy", "HandleUpdate")
+	// the caller side: the error is consulted only under `handled`
+	up := p.SSAFunc(p.Method("boltz", "BaseStore", "Update"))
+	consultsOnlyUnderHandled := false
+	fi := ComputeFacts(up)
+	for _, call := range callsIn(up) {
+		if !invokeNamed(call, "HandleUpdate") {
+			continue
+		}
+		for _, r := range *call.(*ssa.Call).Referrers() {
+			if ex, ok := r.(*ssa.Extract); ok && ex.Index == 1 {
+				for _, u := range *ex.Referrers() {
+					if ret, isRet := u.(*ssa.Return); isRet {
+						consultsOnlyUnderHandled = fi.HoldsWhere(ret.Block(), func(f Fact) bool {
+							e2, isE := f.V.(*ssa.Extract)
+							return f.Kind == "true" && f.Pol && isE && e2.Index == 0 && e2.Tuple == ex.Tuple
+						})
+					}
+				}
+			}
+		}
+	}
+	n := 0
+	for _, f := range cg.Implementers(hm) {
+		fn := p.SSA.FuncValue(f)
+		if fn == nil || fn.Blocks == nil || p.isTestSupport(fn.Pos()) {
+			continue
+		}
+		n++
+		name := FnName(fn)
+		c.Analysed(name)
+		ffi := ComputeFacts(fn)
+		ok := true
+		for _, r := range returnsOf(fn) {
+			if b, isB := boolConst(r.Results[0]); isB && !b {
+				if classifyErr(ffi, r.Block(), r.Results[1], 0) != errNil {
+					ok = false
+				}
+			} else if !isB && consultsOnlyUnderHandled {
+				// handled is computed: the error must not be returned with a possibly-false flag
+				if classifyErr(ffi, r.Block(), r.Results[1], 0) != errNil {
+					ok = false
+				}
+			}
+		}
+		c.Check(ok, rule, name, p.Pos(fn.Pos()), "never returns an error together with handled=false (the store reads the error only when handled)", "returns (handled=false, error): BaseStore.Update ignores the error in that case, performs its own plain update and reports success — a veto of the delegated child update is lost")
+	}
+	if n == 0 {
+		c.Bad(rule, "boltz.ChildStoreStrategy.HandleUpdate", "-", "no implementation found")
 	}
 }
